@@ -4,10 +4,28 @@ package hdkeychain
 func ZZ_C05_roundtrip() {
 	private := vCase("private", 0, 1) == 1
 	k := zzKey(private)
-	k.String()
-	first := append([]byte(nil), zzEncoded...)
-	zzDecoded = first
-	k2, err := NewKeyFromString("<base58>")
+	if vCase("derived", 0, 1) == 1 {
+		// a key produced by derivation (not only keys built field by field)
+		c, err := k.Child(vU32("index"))
+		if err != nil {
+			return
+		}
+		k = c
+		private = c.isPrivate
+		if private {
+			// (IL + k) mod n = 0 is not refused by Child (BIP32 says such a child is invalid);
+			// it needs an HMAC output hitting one value in 2^256 and cannot be exhibited, so it is
+			// excluded here and listed in DESIGN.md under "outside the claim"
+			vAssume(zzNonZero(c.key))
+		} else {
+			// curve contract: the sum of two curve points is a curve point
+			_, perr := zzStubParsePubKey(c.key, zzStubS256())
+			vAssume(perr == nil)
+		}
+		vReach("derived-key")
+	}
+	first := zzSer(k)
+	k2, err := zzParse(first, false)
 	vAssert("parses-back", err == nil && k2 != nil)
 	if k2 == nil {
 		return
@@ -19,8 +37,7 @@ func ZZ_C05_roundtrip() {
 	vAssert("same-chaincode", vEqBytes(k2.chainCode, k.chainCode))
 	vAssert("same-version", vEqBytes(k2.version, k.version))
 	vAssert("same-key", vEqBytes(k2.key, k.key))
-	k2.String()
-	vAssert("same-serialisation", vEqBytes(zzEncoded, first))
+	vAssert("same-serialisation", vEqBytes(zzSer(k2), first))
 	vReach("end")
 }
 
@@ -48,8 +65,10 @@ func zzPayloadLen() int {
 func ZZ_C05_strict() {
 	n := zzPayloadLen()
 	payload := vBytes("payload", n)
-	zzDecoded = payload
-	k, err := NewKeyFromString("<base58>")
+	if !vSymbolic() && n >= 4 {
+		copy(payload[n-4:], zzDsha(payload[:n-4])[:4])
+	}
+	k, err := zzParse(payload, false)
 	vReach("parsed")
 	if err != nil {
 		vAssert("nil-on-error", k == nil)
@@ -71,6 +90,5 @@ func ZZ_C05_strict() {
 		vAssert("point-valid", perr == nil)
 		vAssert("compressed-format", payload[45] == 2 || payload[45] == 3)
 	}
-	k.String()
-	vAssert("canonical-reserialisation", vEqBytes(zzEncoded, payload))
+	vAssert("canonical-reserialisation", vEqBytes(zzSer(k), payload))
 }
